@@ -1,11 +1,123 @@
-import SigmaVerif.Model.Pipe
+import SigmaVerif.Lemmas.Pipe
+/-!
+# C15 — converting a rule gives the same result whatever happened before (ownership part)
+
+`s.visible p`: the items of pipeline object `p` whose back-pointer still points to `p`;
+`s.specVisible p`: all items of `p` (what a conversion with fresh objects sees).
+No well-formedness of the operation history is needed for any statement below: ids of
+non-existent pipelines denote the empty item list, and a `define` that reuses item ids simply
+re-points them like `+` does.
+-/
 namespace SigmaVerif.Props.C15
 open SigmaVerif.Pipe
 
-/-- the defect (finding D12): the pipeline object a backend built first loses its items as soon as
-the same operands are added again (a second backend initialised from the same pipeline objects) -/
+/-! ## 1. a freshly built pipeline object sees all its items (no side condition: shared or
+duplicated item ids among the operands are fine) -/
+
+theorem fresh_visible (s : Sys) (a b : Nat) :
+    (s.add a b).1.visible (s.add a b).2 = (s.add a b).1.specVisible (s.add a b).2 := by
+  rw [add_eq_push]; exact push_visible_new s _
+
+theorem fresh_visible_define (s : Sys) (items : List Nat) :
+    (s.define items).1.visible (s.define items).2 =
+      (s.define items).1.specVisible (s.define items).2 := by
+  rw [define_eq_push]; exact push_visible_new s _
+
+/-! ## 2. the defect: building `p0 + p1` a second time empties the first sum -/
+
 theorem history_dependent :
     let s := Sys.init.run [.define [1, 2], .define [3], .add 0 1, .add 0 1]
-    s.visible 2 = [] ∧ s.specVisible 2 = [1, 2, 3] ∧ s.visible 3 = s.specVisible 3 := by decide
+    s.visible 2 = [] ∧ s.specVisible 2 = [1, 2, 3] ∧
+      s.visible 3 = [1, 2, 3] ∧ s.specVisible 3 = [1, 2, 3] := by decide
+
+/-- before the second `+` the first sum was intact -/
+theorem history_dependent_before :
+    let s := Sys.init.run [.define [1, 2], .define [3], .add 0 1]
+    s.visible 2 = [1, 2, 3] ∧ s.specVisible 2 = [1, 2, 3] ∧ s.visible 0 = [] ∧ s.visible 1 = [] := by
+  decide
+
+/-! ## 3. exactly the last re-pointing wins -/
+
+theorem visible_iff (s : Sys) (p : Nat) :
+    s.visible p = s.specVisible p ↔ ∀ i ∈ s.pipes.getD p [], s.ownerOf i = some p :=
+  visible_iff' s p
+
+/-- the owner of an item after one operation: the new pipeline object if the operation touches the
+item, unchanged otherwise -/
+theorem ownerOf_step (s : Sys) (op : Op) (i : Nat) :
+    (s.step op).ownerOf i = if i ∈ op.touched s then some s.pipes.length else s.ownerOf i := by
+  rw [step_eq_push]; exact ownerOf_push s _ i
+
+/-- one more operation: an existing pipeline object stays intact iff it was intact and the
+operation touches none of its items -/
+theorem step_visible_iff (s : Sys) (op : Op) (p : Nat) (hp : p < s.pipes.length) :
+    (s.step op).visible p = (s.step op).specVisible p ↔
+      s.visible p = s.specVisible p ∧ ∀ i ∈ s.pipes.getD p [], i ∉ op.touched s := by
+  rw [step_eq_push]; exact push_visible_old_iff s _ p hp
+
+/-- any number of operations: an existing pipeline object is intact afterwards iff it was intact
+and no later `define`/`+` re-pointed any of its items -/
+theorem last_add_wins (s : Sys) (ops : List Op) (p : Nat) (hp : p < s.pipes.length) :
+    (s.run ops).visible p = (s.run ops).specVisible p ↔
+      s.visible p = s.specVisible p ∧ Undisturbed s ops p :=
+  run_visible_iff s ops p hp
+
+/-- whatever happened before, the pipeline object created by a final `a + b` sees all its items:
+a backend that (re-)initialises its pipeline immediately before converting is history independent -/
+theorem history_independent_partial (ops : List Op) (a b : Nat) :
+    let s := Sys.init.run ops
+    (s.add a b).1.visible (s.add a b).2 = (s.add a b).1.specVisible (s.add a b).2 :=
+  fresh_visible _ a b
+
+/-- the same in terms of the operation list -/
+theorem history_independent_run (ops : List Op) (a b : Nat) :
+    let s := Sys.init.run (ops ++ [.add a b])
+    s.visible (s.pipes.length - 1) = s.specVisible (s.pipes.length - 1) := by
+  intro s
+  have hs : s = ((Sys.init.run ops).add a b).1 := by
+    show Sys.init.run (ops ++ [.add a b]) = _
+    rw [run_append]; rfl
+  have := fresh_visible (Sys.init.run ops) a b
+  rw [← hs] at this
+  have hl : s.pipes.length - 1 = ((Sys.init.run ops).add a b).2 := by
+    rw [hs, add_eq_push]; simp [push_length]
+  rw [hl]; exact this
+
+/-- … and defining any number of further pipelines does not disturb it as long as their item
+objects are different from the items of the sum -/
+theorem history_independent_defines (ops : List Op) (a b : Nat) (defs : List (List Nat)) :
+    let s := Sys.init.run ops
+    let p := (s.add a b).2
+    let s' := (s.add a b).1.run (defs.map Op.define)
+    (∀ d ∈ defs, ∀ i ∈ d, i ∉ s.pipes.getD a [] ++ s.pipes.getD b []) →
+      s'.visible p = s'.specVisible p ∧ s'.specVisible p = s.pipes.getD a [] ++ s.pipes.getD b [] := by
+  intro s p s' hfresh
+  have hp : p < (s.add a b).1.pipes.length := by
+    show s.pipes.length < _
+    rw [add_eq_push, push_length]; omega
+  have hitems : (s.add a b).1.pipes.getD p [] = s.pipes.getD a [] ++ s.pipes.getD b [] := by
+    show (s.add a b).1.pipes.getD s.pipes.length [] = _
+    rw [add_eq_push]; exact pipes_push_new s _
+  refine ⟨?_, ?_⟩
+  · refine (run_visible_iff _ _ p hp).2 ⟨fresh_visible s a b, ?_⟩
+    apply undisturbed_defines _ _ _ hp
+    rw [hitems]; exact hfresh
+  · show s'.pipes.getD p [] = _
+    rw [(run_pipes_old _ _ p hp).1, hitems]
+
+/-- non-vacuity of `history_independent_defines` (after the history of `history_dependent`) -/
+example :
+    let s := Sys.init.run [.define [1, 2], .define [3], .add 0 1, .add 0 1]
+    let s' := (s.add 0 1).1.run [.define [10], .define [11, 12]]
+    (∀ d ∈ [[10], [11, 12]], ∀ i ∈ d, i ∉ s.pipes.getD 0 [] ++ s.pipes.getD 1 []) ∧
+      s'.visible 4 = [1, 2, 3] := by decide
+
+/-- conversely a later `define`/`+` that touches an item of an existing pipeline object always
+breaks it -/
+theorem disturbed_not_visible (s : Sys) (op : Op) (p i : Nat) (hp : p < s.pipes.length)
+    (hi : i ∈ s.pipes.getD p []) (ht : i ∈ op.touched s) :
+    (s.step op).visible p ≠ (s.step op).specVisible p := by
+  intro h
+  exact ((step_visible_iff s op p hp).1 h).2 i hi ht
 
 end SigmaVerif.Props.C15
